@@ -4,11 +4,11 @@ C10 — the two routers as far as panics are concerned.
 * legacy (`routers/legacy/router.go`, `pathpattern/node.go`): tokenisation of `METHOD path` as
   `CreateNode` does it, matching of a request key against one template as `matchRemaining` does it along
   the trie path of that template (the trie backtracks over all suffixes, so "some node is returned" is
-  "some template matches"), and `FindRoute` branch by branch, **including** the fall-back after a failed
-  match: `doc.Paths.Value(remaining)` found and the method declared ⇒ the code goes on to
-  `node.VariableNames` with `node == nil` — an explicit `panic` outcome (finding F-C10-2).
-* gorillamux (`routers/gorillamux/router.go`): the port-variable branch of `makeServers`
-  (`rest[:rhs]`, finding F-C10-3) and `FindRoute`'s call of `PathItem.GetOperation`, which panics on a
+  "some template matches"), and `FindRoute` branch by branch, including the fall-back after a failed
+  match, which since commit 8654816 always ends in a route error (before, `doc.Paths.Value(remaining)`
+  found with the method declared went on to `node.VariableNames` with `node == nil`: F-C10-2, fixed).
+* gorillamux (`routers/gorillamux/router.go`): the port-variable branch of `makeServers` with its slice
+  expression `rest[:rhs]` explicit (`rhs < 0` is an error since a0fa632; before: F-C10-3) and `FindRoute`'s call of `PathItem.GetOperation`, which panics on a
   method outside the nine known ones; gorilla/mux itself is a parameter (the index of the matched route)
   constrained by its `Methods(...)` contract.
 -/
@@ -87,15 +87,15 @@ def templateMatches (paths : List PathM) (key : Str) : Bool :=
 def newRouterFails (paths : List PathM) : Bool :=
   paths.any fun p => p.methods.any fun m => (tokenize (keyOf m p.tpl)).isNone
 
-/-- what `FindRoute` does once the remaining path is known -/
+/-- what `FindRoute` does once the remaining path is known; `node` is non-nil exactly in the `.found` branch -/
 def legacyAfterServer (paths : List PathM) (method remaining : Str) : RouteRes :=
-  if templateMatches paths (keyOf method remaining) then .found
+  if templateMatches paths (keyOf method remaining) then .found       -- node != nil: node.VariableNames is safe
   else
     match paths.find? (fun p => p.tpl = remaining) with      -- doc.Paths.Value(remainingPath)
     | none => .pathNotFound
     | some p =>
       if ¬ p.methods.contains method then .methodNotAllowed
-      else .panic "legacy/router.go FindRoute: node.VariableNames with node == nil"
+      else .pathNotFound      -- the request path spells a template literally: no template matches it
 
 /-- legacy `FindRoute`: `rawURL` is `req.URL.String()` without the query, `urlPath` is `req.URL.Path` -/
 def legacyFindRoute (servers : List Str) (paths : List PathM) (method rawURL urlPath : Str) : RouteRes :=
@@ -108,29 +108,15 @@ def legacyFindRoute (servers : List Str) (paths : List PathM) (method rawURL url
     | some .panic => .panic "openapi3/server.go MatchRawURL: input[0]"
     | some _ => .pathNotFound
 
-/-- the defect class: no template matches, yet the path is literally a key of `paths` with that method -/
-def LiteralTemplateMiss (paths : List PathM) (method remaining : Str) : Bool :=
-  !templateMatches paths (keyOf method remaining) &&
-    (paths.find? (fun p => p.tpl = remaining)).any (fun p => p.methods.contains method)
-
-theorem legacyAfterServer_no_panic (paths : List PathM) (method remaining : Str)
-    (h : LiteralTemplateMiss paths method remaining = false) :
+theorem legacyAfterServer_no_panic (paths : List PathM) (method remaining : Str) :
     ∀ site, legacyAfterServer paths method remaining ≠ .panic site := by
   intro site
   unfold legacyAfterServer
-  unfold LiteralTemplateMiss at h
-  cases hm : templateMatches paths (keyOf method remaining) with
-  | true => simp
-  | false =>
-    simp only [hm, Bool.not_false, Bool.true_and] at h
-    simp only [Bool.false_eq_true, if_false]
-    cases hf : paths.find? (fun p => p.tpl = remaining) with
-    | none => simp
-    | some p =>
-      simp only [hf, Option.any_some] at h
-      have h' : method ∉ p.methods := by
-        intro hc; rw [List.contains_iff_mem.mpr hc] at h; exact Bool.noConfusion h
-      simp [h']
+  split
+  · simp
+  · split
+    · simp
+    · split <;> simp
 
 theorem matchServers_ne_panic : ∀ (servers : List Str) (input : Str), Server.matchServers servers input ≠ some .panic := by
   intro servers input
@@ -186,10 +172,26 @@ def findSub2 (a b : Char) : Str → Option Nat
   | [_] => none
   | x :: y :: rest => if x = a ∧ y = b then some 0 else (findSub2 a b (y :: rest)).map (· + 1)
 
-inductive PortRes | noPort | port (name : Str) | panic deriving DecidableEq, Repr
+inductive PortRes | noPort | port (name : Str) | routerError | panic deriving DecidableEq, Repr
+
+/-- Go's `strings.Index` result as an integer (-1 = absent) -/
+def idx (o : Option Nat) : Int := match o with | none => -1 | some i => i
+
+/-- the slice expression `s[:i]`: out of range (a panic) unless 0 ≤ i ≤ len(s) -/
+def sliceTo (s : Str) (i : Int) : Option Str :=
+  if 0 ≤ i ∧ i ≤ s.length then some (s.take i.toNat) else none
+
+/-- `rhs := Index(rest, "}")`, `if rhs < 0 { return error }`, `rest[:rhs]` -/
+def portTail (rest : Str) : PortRes :=
+  let rhs := idx (Server.indexOf '}' rest)
+  if rhs < 0 then .routerError
+  else
+    match sliceTo rest rhs with
+    | none => .panic
+    | some name => .port name
 
 /-- the port-variable branch of `makeServers`: `lhs := Index(url, ":{")`, `rest := url[lhs+2:]`,
-    `rhs := Index(rest, "}")`, `rest[:rhs]` -/
+    `rhs := Index(rest, "}")`, `if rhs < 0 { return error }`, `rest[:rhs]` -/
 def gorillaPortBranch (u : Str) : PortRes :=
   if singleVar u then .noPort
   else
@@ -198,13 +200,39 @@ def gorillaPortBranch (u : Str) : PortRes :=
     | some lhs =>
       if lhs = 0 then .noPort
       else
-        let rest := u.drop (lhs + 2)
-        match Server.indexOf '}' rest with
-        | none => .panic                  -- rest[:-1]
-        | some rhs => .port (rest.take rhs)
+        portTail (u.drop (lhs + 2))
 
-def PortUnclosed (u : Str) : Bool := gorillaPortBranch u = .panic
+theorem indexOf_lt (c : Char) : ∀ (l : Str) (i : Nat), Server.indexOf c l = some i → i < l.length
+  | [], _, h => by simp [Server.indexOf] at h
+  | x :: xs, i, h => by
+    unfold Server.indexOf at h
+    split at h
+    · cases h; simp
+    · cases hr : Server.indexOf c xs with
+      | none => simp [hr] at h
+      | some j =>
+        simp [hr] at h
+        have := indexOf_lt c xs j hr
+        simp only [List.length_cons]; omega
 
-def gorillaNewRouterPanics (servers : List Str) : Bool := servers.any PortUnclosed
+theorem portTail_no_panic (rest : Str) : portTail rest ≠ .panic := by
+  unfold portTail
+  cases hi : Server.indexOf '}' rest with
+  | none => simp [idx]
+  | some r =>
+    have hlt := indexOf_lt _ _ _ hi
+    have h1 : ¬ ((r : Int) < 0) := by omega
+    have h2 : (0 : Int) ≤ r ∧ (r : Int) ≤ rest.length := by omega
+    simp [idx, sliceTo, h1, h2]
+
+theorem gorillaPortBranch_no_panic (u : Str) : gorillaPortBranch u ≠ .panic := by
+  unfold gorillaPortBranch
+  split
+  · simp
+  · split
+    · simp
+    · split
+      · simp
+      · exact portTail_no_panic _
 
 end KinModel.NoPanic.Router
